@@ -61,6 +61,8 @@ THEOREMS = [
     "Opacus.C07.compose_heterogeneous_perm_invariant",
     # the tie to the source: Generated/GdpAnalysis.lean is re-translated from accountants/analysis/gdp.py on every run
     "Opacus.C12.generated_gdp_eq_model",
+    # … and Generated/AcctStep.lean from the three accountants' step()
+    "Opacus.C12.generated_acct_step_eq_model",
 ]
 RULE = (
     "correspondence cases: step() sequences over a small pool of (sigma, q) pairs (exact); CLI tuples (q, sigma, epochs, delta, orders); "
@@ -70,6 +72,7 @@ RULE = (
     "non-trivial iff the two histories differ as lists (or the parameter really changed) and both evaluations succeed; distinct by (accountant, relation, history, delta)"
 )
 TRUSTED = [
+    "the translator vharness/props/c05_trans.py (the accountants' step() -> pure functions on the history list; subset in its docstring) is trusted to render RDPAccountant / PRVAccountant / GaussianAccountant.step faithfully (float == as equality); the same methods are run against the model by the behavioural correspondence",
     "the translator vharness/pytrans.py + props/c12_trans.py (Python `ast` -> Lean real arithmetic; subset in its docstring, anything else is reported as a broken tie) is trusted to render compute_mu_poisson / compute_mu_uniform / delta_eps_mu faithfully; the same functions are also run against the model by the behavioural correspondence",
     "scipy.stats.norm.cdf, scipy.optimize.root_scalar(brentq) compute what they name; Dong-Roth-Su 2019 (GDP central limit theorem) is cited: the check is about the formula, not about GDP being a valid bound",
     "monotonicity / invariance theorems are over the reals for integer orders >= 2 (any non-empty list), sample rates in [0,1], sigma > 0; float summation order is not modelled (the search uses rel 1e-9)",
@@ -481,6 +484,8 @@ def regenerate(ctx):
     from .. import regen
     from . import c12_trans as T
     regen.regenerate(ctx, T, "Opacus.Generated.Gdp", "accountants/analysis/gdp.py")
+    from . import c05_trans as T5
+    regen.regenerate(ctx, T5, "Opacus.Generated.Acct", "accountants/{rdp,prv,gdp}.py:step")
 
 
 def run(ctx):
